@@ -27,6 +27,7 @@
 import sys
 import ast
 from base64 import b64decode, b64encode
+from collections.abc import Mapping
 
 from frappy.errors import ConfigError, ProgrammingError, \
     RangeError, WrongTypeError
@@ -1039,10 +1040,9 @@ class StructOf(DataType):
             raise errcls('struct element %s is invalid' % key) from e
 
     def check_type(self, value, allow_optional=False):
-        try:
-            superfluous = set(dict(value)) - set(self.members)
-        except TypeError:
-            raise WrongTypeError(f'{type(value).__name__} can not be converted a StructOf') from None
+        if not isinstance(value, Mapping):
+            raise WrongTypeError(f'{type(value).__name__} can not be converted a StructOf')
+        superfluous = set(value) - set(self.members)
         if superfluous - set(self.optional):
             raise WrongTypeError(f"struct contains superfluous members: {', '.join(superfluous)}")
         missing = set(self.members) - set(value)
